@@ -1,5 +1,161 @@
-import DaskModel.Model.Repart
+import DaskModel.Lemmas.Repart
+/-! # C44 — repartitioning preserves rows, order and requested layout (theorems) -/
 namespace Dask.C44
 open Dask.Repart
-theorem placeholder : pairs [0, 2, 5] = [(0, 2), (2, 5)] := by decide
+
+/-- **RepartitionToFewer**: for every list of partitions and every raw boundary vector that starts at 0,
+    is non-decreasing and ends at or below the number of input partitions (`BoundsOK`; this is what
+    `int(i * (old / new))` is checked against), the layer evaluates, has one partition per boundary
+    pair (`n` for `n + 1` boundaries) and concatenating the outputs gives the input rows in order. -/
+theorem tofewer_rows {α : Type} (parts : List (List α)) (raw : List Nat) (h : BoundsOK raw parts.length) :
+    ∃ out, toFewer parts raw = some out ∧ out.length = raw.length - 1 ∧ out.flatten = parts.flatten := by
+  obtain ⟨bs, hc, hlen, h0, hl, hm, hle⟩ := clean_spec h
+  refine ⟨(chunks parts bs).map List.flatten, ?_, ?_, ?_⟩
+  · unfold toFewer
+    rw [hc]
+    exact evalLayer_toFewerLayer parts bs hle hm
+  · rw [List.length_map, chunks_length, hlen]
+  · rw [← List.flatten_flatten, chunks_flatten parts bs 0 parts.length h0 hl hm, pySlice_full]
+
+/-- every output partition of ToFewer is a contiguous run of input partitions -/
+theorem tofewer_contiguous {α : Type} (parts : List (List α)) (raw : List Nat) (h : BoundsOK raw parts.length) :
+    ∃ bs, cleanBoundaries raw parts.length = some bs ∧
+      toFewer parts raw = some ((pairs bs).map fun (s, e) => (pySlice parts s e).flatten) := by
+  obtain ⟨bs, hc, _, _, _, hm, hle⟩ := clean_spec h
+  refine ⟨bs, hc, ?_⟩
+  unfold toFewer
+  rw [hc]
+  simpa [chunks, Function.comp_def] using evalLayer_toFewerLayer parts bs hle hm
+
+/-- **`_nsplits`**: the split counts add up to the requested number of partitions, one per input partition -/
+theorem nsplits_sum {new old : Nat} {ks : List Nat} (h : nsplits new old = some ks) :
+    ks.sum = new ∧ ks.length = old := by
+  unfold nsplits at h
+  split at h
+  · cases h
+  · rename_i ho
+    cases h
+    obtain ⟨o, rfl⟩ : ∃ o, old = o + 1 := ⟨old - 1, by omega⟩
+    have hdm := Nat.div_add_mod new (o + 1)
+    refine ⟨?_, by simp⟩
+    simp only [List.sum_append, List.sum_replicate_nat, List.sum_cons, List.sum_nil, Nat.add_sub_cancel]
+    generalize new / (o + 1) = q at hdm ⊢
+    rw [Nat.succ_mul] at hdm
+    omega
+
+/-- hypothesis on the positions at which a partition of `len` rows is cut into `k` pieces
+    (`np.linspace(0, len, k + 1).astype(int)`: checked against the exact double model on every run) -/
+def PosOK (posOf : Nat → Nat → Option (List Nat)) : Prop :=
+  ∀ len k pos, posOf len k = some pos →
+    pos.length = k + 1 ∧ pos.head? = some 0 ∧ pos.getLast? = some len ∧ pos.Pairwise (· ≤ ·)
+
+/-- **RepartitionToMore**: exactly `sum nsplits` partitions, rows and order preserved -/
+theorem tomore_rows {α : Type} (posOf : Nat → Nat → Option (List Nat)) (hpos : PosOK posOf) :
+    ∀ (parts : List (List α)) (ks : List Nat) (out : List (List α)),
+      toMoreWith posOf parts ks = some out → out.length = ks.sum ∧ out.flatten = parts.flatten
+  | [], [], out, h => by simp [toMoreWith] at h; subst h; simp
+  | [], _ :: _, _, h => by simp [toMoreWith] at h
+  | _ :: _, [], _, h => by simp [toMoreWith] at h
+  | p :: ps, k :: ks, out, h => by
+    simp only [toMoreWith, Option.bind_eq_bind, Option.bind_eq_some_iff, Option.pure_def,
+      Option.some.injEq] at h
+    obtain ⟨here, hhere, rest, hrest, rfl⟩ := h
+    obtain ⟨ih1, ih2⟩ := tomore_rows posOf hpos ps ks rest hrest
+    have key : here.length = k ∧ here.flatten = p := by
+      unfold splitOne at hhere
+      split at hhere
+      · rename_i hk
+        cases hhere
+        subst hk
+        simp
+      · simp only [Option.map_eq_some_iff] at hhere
+        obtain ⟨pos, hp, rfl⟩ := hhere
+        obtain ⟨hl, h0, hlast, hm⟩ := hpos _ _ _ hp
+        rw [cut_eq_chunks]
+        refine ⟨by rw [chunks_length, hl]; omega, ?_⟩
+        rw [chunks_flatten p pos 0 p.length h0 hlast hm, pySlice_full]
+    simp only [List.length_append, List.flatten_append, List.sum_cons, List.flatten_cons, key.1, key.2, ih1, ih2]
+    exact ⟨trivial, trivial⟩
+
+/-- the part of `PosOK` that needs no float reasoning holds for the modelled `split_evenly` -/
+theorem splitPositions_shape {len k : Nat} {pos : List Nat} (h : splitPositions len k = some pos) :
+    pos.length = k + 1 ∧ pos.head? = some 0 ∧ pos.getLast? = some len := by
+  unfold splitPositions at h
+  split at h
+  · cases h
+  · rename_i hk
+    cases h
+    refine ⟨by simp, ?_, by simp⟩
+    obtain ⟨k', rfl⟩ : ∃ k', k = k' + 1 := ⟨k - 1, by omega⟩
+    simp [List.range_succ_eq_map, F64.mulNat, F64.roundRat, F64.trunc]
+
+/-- **repartition(npartitions = n) with n ≥ old yields exactly n partitions** through ToMore -/
+theorem tomore_npartitions {α : Type} (parts : List (List α)) (new : Nat) (out : List (List α))
+    (hmono : PosOK splitPositions) (h : toMore parts new = some out) :
+    out.length = new ∧ out.flatten = parts.flatten := by
+  unfold toMore at h
+  simp only [Option.bind_eq_some_iff] at h
+  obtain ⟨ks, hks, hout⟩ := h
+  obtain ⟨h1, h2⟩ := tomore_rows splitPositions hmono parts ks out hout
+  exact ⟨by rw [h1, (nsplits_sum hks).1], h2⟩
+
+/-- number of partitions of the expression `Repartition._lower` picks -/
+def kindCount (new old : Nat) : Kind → Nat
+  | .fewer => new      -- `tofewer_rows`: `new + 1` boundaries
+  | .same => old
+  | .more => new       -- `tomore_npartitions`
+  | .divisions d => d.length - 1
+
+/-- **`repartition(npartitions = n)` lowers to an expression with exactly `n` partitions in every
+    branch** (this is the statement that was false before the fix of defect #22: the interpolated
+    divisions could collapse to fewer than `n + 1` entries) -/
+theorem lower_npartitions (new old : Nat) (interp : Option (List Nat)) :
+    kindCount new old (lowerKind new old interp) = new := by
+  unfold lowerKind
+  split
+  · rfl
+  · split
+    · rename_i h; simp [kindCount, h]
+    · cases interp with
+      | none => rfl
+      | some ds =>
+        simp only
+        split
+        · rename_i h; simp [kindCount, h]
+        · rfl
+
+/-! ### RepartitionDivisions: full statement (validated by the tie, not yet proved) -/
+
+/-- known divisions `divs` describe `parts` truthfully -/
+def Truthful {α : Type} (key : α → Nat) (divs : List Nat) (parts : List (List α)) : Prop :=
+  parts.length + 1 = divs.length ∧
+  ∀ i p lo hi, parts[i]? = some p → divs[i]? = some lo → divs[i + 1]? = some hi →
+    ∀ r ∈ p, lo ≤ key r ∧ (key r < hi ∨ (i + 1 = parts.length ∧ key r ≤ hi))
+
+/-- a legal division vector: strictly increasing except that the last two entries may coincide -/
+def ValidDivs (d : List Nat) : Prop := 2 ≤ d.length ∧ d.dropLast.Pairwise (· < ·) ∧ d.Pairwise (· ≤ ·)
+
+/-- FULL STATEMENT for `repartition(divisions = b)` — rows, order and divisions exactly `b` -/
+def DivisionsFullStatement : Prop :=
+  ∀ (α : Type) (key : α → Nat) (parts : List (List α)) (a b : List Nat) (force : Bool) (out : List (List α)),
+    ValidDivs a → ValidDivs b → Truthful key a parts →
+    repartitionDivisions key parts a b force = some out →
+    out.flatten = parts.flatten ∧ Truthful key b out
+
+/-! ### non-vacuity -/
+
+example : BoundsOK [0, 1, 2, 4, 5, 6, 8, 9, 10, 12, 13, 15] 15 :=
+  ⟨rfl, by decide, by intro l h; cases h; decide, by decide⟩
+example : toFewerBoundaries 11 15 = some [0, 1, 2, 4, 5, 6, 8, 9, 10, 12, 13, 15] := by decide
+example : toFewer [[1], [2, 3], [], [4]] [0, 1, 3] = some [[1], [2, 3, 4]] := by decide
+example : nsplits 8 3 = some [2, 2, 4] := by decide
+example : toMoreWith (fun len k => some ((List.range k).map (fun i => i * len / k) ++ [len]))
+    [[1, 2, 3], [4]] [2, 1] = some [[1], [2, 3], [4]] := by decide
+/-- the witness of defect #22: interpolating the divisions (0,1,2,4,5) of the 13-row frame to 8 points
+    gives `[0,0,1,1,2,3,4,5]`, which collapses to 6 entries — the repaired `_lower` picks ToMore -/
+example : lowerKind 7 1 (some [0, 0, 1, 1, 2, 3, 4, 5]) = .more := by decide
+example : lowerKind 4 2 (some [0, 2, 5, 7, 9]) = .divisions [0, 2, 5, 7, 9] := by decide
+example : repartitionDivisions (fun (r : Nat × Nat) => r.1) [[(0, 0), (1, 1)], [], [(3, 2), (5, 3), (5, 4)]]
+    [0, 3, 3, 5] [0, 2, 4, 5] false = some [[(0, 0), (1, 1)], [(3, 2)], [(5, 3), (5, 4)]] := by decide
+
 end Dask.C44
